@@ -89,29 +89,42 @@ func GenStream(key uint64, n int) []byte { return NewGen(key).Bytes(n) }
 // networking helpers
 
 var (
-	usedPortsMu sync.Mutex
-	usedPorts   = map[int]bool{}
+	portMu   sync.Mutex
+	portNext int
 )
 
-// FreePort returns a currently free loopback TCP port that this lab process
-// has not handed out before (a refused gateway must not be mistaken for
-// another gateway that later got the same port).
+// FreePort returns a free loopback TCP port that this lab process has not
+// handed out before: a refused gateway must not be mistaken for another
+// process that later got the same port. Ports come from a private range below
+// the kernel's ephemeral range (so the kernel never hands them to the lab's
+// other listeners), walked sequentially from a per-process offset.
 func FreePort() int {
-	for {
-		l, err := net.Listen("tcp", "127.0.0.1:0")
-		if err != nil {
-			panic(err)
-		}
-		p := l.Addr().(*net.TCPAddr).Port
-		usedPortsMu.Lock()
-		dup := usedPorts[p]
-		usedPorts[p] = true
-		usedPortsMu.Unlock()
-		l.Close()
-		if !dup {
-			return p
-		}
+	const lo, hi = 10000, 32000
+	portMu.Lock()
+	defer portMu.Unlock()
+	if portNext == 0 {
+		portNext = lo + (os.Getpid()*7919)%(hi-lo)
 	}
+	for tries := 0; tries < 4*(hi-lo); tries++ {
+		p := portNext
+		portNext++
+		if portNext >= hi {
+			portNext = lo
+		}
+		l, err := net.Listen("tcp", fmt.Sprintf("127.0.0.1:%d", p))
+		if err != nil {
+			continue
+		}
+		l.Close()
+		// the gateway listens on all interfaces
+		l2, err := net.Listen("tcp", fmt.Sprintf(":%d", p))
+		if err != nil {
+			continue
+		}
+		l2.Close()
+		return p
+	}
+	panic("no free port in the lab's private range")
 }
 
 // DialFrom dials addr from the given local IP ("" = default).
